@@ -17,6 +17,7 @@ struct Made {
     std::vector<Obj> data;
     enc::Header hdr;
     std::string what;
+    std::string what_extra;  // (hostile modes: what was made inconsistent)
 };
 
 // 0..max_objects objects in the domain the formats share (see C02), encoded under generated encoding choices
@@ -57,7 +58,28 @@ inline enc::PbfEncoder::Hostile gen_hostile(Src& s) {
     return h;
 }
 
-inline Made small_file(Src& s, int fmt, size_t max_objects = 8, bool changesets = true, size_t min_objects = 0, enc::PbfEncoder::Hostile* hostile = nullptr) {
+// one or two inconsistencies for the o5m encoder's hostile mode (see enc::O5mEncoder::Hostile)
+inline enc::O5mEncoder::Hostile gen_hostile_o5m(Src& s, size_t n_objects) {
+    enc::O5mEncoder::Hostile h;
+    h.target = n_objects ? s.draw(n_objects) : 0;
+    static const int64_t deltas[] = {-1, -2, -3, 1, 2, 3, 100, 70000, 1LL << 32, 1LL << 62};
+    static const uint64_t refs[] = {1, 2, 3, 100, 14999, 15000, 15001, 15002, 65536, 1ULL << 32, ~0ULL};
+    // one thing, or two things together (a wrong reference section length and a body that ends early need each other to reach
+    // the code behind the first check)
+    const unsigned what = static_cast<unsigned>(s.weighted({4, 3, 2, 2, 4, 2}));
+    h.alter_reflen = what == 0 || what == 4 || what == 5;
+    h.cut_body = what == 1 || what == 4;
+    h.alter_length = what == 2 || what == 5;
+    h.bad_reference = what == 3;
+    h.reflen_mode = static_cast<unsigned>(s.draw(6));
+    h.extra = 1 + s.draw(s.boolean() ? 8 : 100000);
+    h.cut_pick = s.draw(64);
+    h.length_delta = deltas[s.draw(sizeof(deltas) / sizeof(deltas[0]))];
+    h.reference = refs[s.draw(sizeof(refs) / sizeof(refs[0]))];
+    return h;
+}
+
+inline Made small_file(Src& s, int fmt, size_t max_objects = 8, bool changesets = true, size_t min_objects = 0, enc::PbfEncoder::Hostile* hostile = nullptr, bool hostile_o5m = false) {
     Made m;
     m.fmt = fmt;
     enc::PbfPlan plan;
@@ -107,8 +129,14 @@ inline Made small_file(Src& s, int fmt, size_t max_objects = 8, bool changesets 
         }
         case 1: {
             enc::O5mEncoder e{s, ch};
+            enc::O5mEncoder::Hostile h;
+            if (hostile_o5m) {
+                h = gen_hostile_o5m(s, m.data.size());
+                e.hostile = &h;
+            }
             m.bytes = e.encode(m.hdr, m.data, history);
             m.format = history ? "o5c" : "o5m";
+            if (hostile_o5m) m.what_extra = h.fired ? " inconsistent in object #" + std::to_string(h.target) + ":" + h.what : " (no inconsistency placed)";
             break;
         }
         case 2: {
@@ -136,7 +164,7 @@ inline Made small_file(Src& s, int fmt, size_t max_objects = 8, bool changesets 
             break;
         }
     }
-    m.what = std::string{FMT[fmt]} + " file with " + std::to_string(m.data.size()) + " objects, " + std::to_string(m.bytes.size()) + " bytes";
+    m.what = std::string{FMT[fmt]} + " file with " + std::to_string(m.data.size()) + " objects, " + std::to_string(m.bytes.size()) + " bytes" + m.what_extra;
     return m;
 }
 
